@@ -176,13 +176,29 @@ theorem items_conc (ms : Nat) (a : Msg) (hs : Shape a) :
 
 /-! ### the search loops -/
 
+/-- number of the last option that is not above `n` (0 if none): `prev_number` of coap_insert_option, and
+`max_opt` when nothing is above `n` -/
+def prevNum (n : Nat) (os : List (Nat × Bytes)) : Nat := lastD 0 (os.takeWhile (fun o => decide (o.1 ≤ n)))
+
+theorem takeWhile_all (n : Nat) (os : List (Nat × Bytes)) (h : ∀ o ∈ os, o.1 ≤ n) :
+    os.takeWhile (fun o => decide (o.1 ≤ n)) = os := by
+  induction os with
+  | nil => rfl
+  | cons x os ih =>
+    have hx := h x (List.mem_cons_self ..)
+    simp [List.takeWhile, hx, ih (fun o ho => h o (List.mem_cons_of_mem _ ho))]
+
+theorem prevNum_all (n : Nat) (os : List (Nat × Bytes)) (h : ∀ o ∈ os, o.1 ≤ n) : prevNum n os = lastNum os := by
+  unfold prevNum; rw [takeWhile_all n os h]; rfl
+
 /-- the loop of coap_insert_option stops at the split point of `insertStable` -/
 theorem findInsert_abs (n : Nat) (v : Bytes) : ∀ (os : List (Nat × Bytes)) (ofs prev : Nat),
     (∃ o ∈ os, n < o.1) →
     ∃ pre nx post, os = pre ++ nx :: post ∧ (∀ o ∈ pre, o.1 ≤ n) ∧ n < nx.1 ∧
       findInsert n prev (absItems ofs prev os) =
         some (itemOf (ofs + (Spec.encOpts prev pre).length) (lastD prev pre) nx, lastD prev pre) ∧
-      Spec.insertStable n v os = pre ++ (n, v) :: nx :: post := by
+      Spec.insertStable n v os = pre ++ (n, v) :: nx :: post ∧
+      pre = os.takeWhile (fun o => decide (o.1 ≤ n)) := by
   intro os
   induction os with
   | nil => intro ofs prev ⟨o, ho, _⟩; cases ho
@@ -194,8 +210,8 @@ theorem findInsert_abs (n : Nat) (v : Bytes) : ∀ (os : List (Nat × Bytes)) (o
         rcases List.mem_cons.mp ho with rfl | ho
         · omega
         · exact ⟨o, ho, hlt⟩
-      obtain ⟨pre, nx, post, e1, e2, e3, e4, e5⟩ := ih (ofs + (Spec.encOpt (x.1 - prev) x.2).length) x.1 hex'
-      refine ⟨x :: pre, nx, post, by simp [e1], ?_, e3, ?_, ?_⟩
+      obtain ⟨pre, nx, post, e1, e2, e3, e4, e5, e6⟩ := ih (ofs + (Spec.encOpt (x.1 - prev) x.2).length) x.1 hex'
+      refine ⟨x :: pre, nx, post, by simp [e1], ?_, e3, ?_, ?_, by simp [List.takeWhile, hx, e6]⟩
       · intro o ho
         rcases List.mem_cons.mp ho with rfl | ho
         · exact hx
@@ -207,7 +223,7 @@ theorem findInsert_abs (n : Nat) (v : Bytes) : ∀ (os : List (Nat × Bytes)) (o
         rw [this, lastD_cons]
         simp only [Spec.encOpts, List.length_append, Nat.add_assoc]
       · simp only [Spec.insertStable, hx, if_true, e5, List.cons_append]
-    · refine ⟨[], x, os, rfl, by simp, by omega, ?_, ?_⟩
+    · refine ⟨[], x, os, rfl, by simp, by omega, ?_, ?_, by simp [List.takeWhile, hx]⟩
       · have hg : x.1 > n := by omega
         simp [absItems, findInsert, itemOf, hg, Spec.encOpts, lastD_nil]
       · simp [Spec.insertStable, hx]
